@@ -169,9 +169,10 @@ func checkDataflow(m *vcase.Model, ans *vrun.Answer) (msg string, consumers int)
 func TestC02(t *testing.T) {
 	p := detProfile()
 	p.Name = "deterministic-dataflow"
-	p.Outcomes = []string{"success", "success", "success", "success", "error", "alt", "crash"}
+	p.Outcomes = []string{"success", "success", "success", "success", "success", "success", "error", "alt", "crash"}
 	p.MaxDelayMs = 25
-	p.PreferProduced = 80
+	p.PreferProduced = 95
+	p.OutputsWaitAll = true
 	runProperty(t, "C02",
 		func(rt *rapid.T) *vcase.Case { return vcase.GenCase(rt, p, "C02") },
 		func(st *Stats, c *vcase.Case) string {
